@@ -41,21 +41,21 @@ CHECKS = {
     ),
     "C14": dict(
         category="exploration",
-        text="Deterministic simulation over schedules and histories: each simulated run is a fresh interpreter with a seeded PYTHONHASHSEED, a seeded plugin-import permutation, seeded iteration permutations for every node set the optimizer builds, seeded hash values for ir.Node/ir.Value (stand-in for arbitrary object addresses), seeded GC points (between trace and lowering, between equations) and allocation perturbation, executing a seeded history (other conversions, faulted conversions via the C13 injector, late decorations, precision neighbours, repeats, identically constructed twins). Oracle: sha256 of SerializeToString(deterministic=True) equals the digest from a canonical interpreter for the same request (requests on which two canonical interpreters disagree are only compared within a process). Seeded search, not exhaustive.",
+        text="Deterministic simulation over schedules and histories: each simulated run is a fresh interpreter with a seeded PYTHONHASHSEED, a seeded plugin-import permutation, seeded iteration permutations for every node set the optimizer builds, seeded hash values for ir.Node/ir.Value (stand-in for arbitrary object addresses), seeded GC points (between trace and lowering, between equations) and allocation perturbation, executing a seeded history (other conversions, faulted conversions via the C13 injector, late decorations, precision neighbours, repeats, identically constructed twins, in-place weight updates of live instances between two exports). Oracle: sha256 of SerializeToString(deterministic=True) equals the digest from a canonical interpreter for the same request (registry requests on which two canonical interpreters disagree are only compared within a process; for seeded fixture requests such a disagreement is itself a violation). Seeded search, not exhaustive.",
         design_ref="§5.3",
         note="Trusted: protobuf deterministic serialisation; the schedule seams (module-global `set` in ir_optimizations, ir.Node/ir.Value.__hash__, PYTHONHASHSEED, gc). Hash-ordered containers of other object kinds inside third-party libraries are only varied through PYTHONHASHSEED and allocation perturbation.",
         technique="deterministic simulation: seeded schedule (hash seed, import order, set-iteration order, object hashes, GC points) x seeded history, byte-digest oracle vs canonical interpreter",
     ),
     "C13": dict(
         category="fault_enumeration",
-        text="Deterministic simulation of conversion histories in fresh interpreters with synchronous fault injection: (1) exhaustive enumeration of every eligible CALL site of the patch stack and its callers (sys.monitoring, ~9-20k sites per program) x {ordinary exception, interrupt-class exception} for fixed fixture programs (flat function, module with @onnx_function children, nested functions); (2) seeded histories mixing fault-free and faulted conversions of fixture and registry programs, precision flags, return modes, late and nested decorations, GC and eager probes. After every operation the oracle compares the declared write set (586 attributes), periodically the full namespace (~100k statically resolved attributes of jax/flax/equinox/... modules and classes), the 64-bit flag, a deep fingerprint of the user object, and eager behaviour against a conversion-free control interpreter. Sampling over histories, exhaustive over single-fault sites of the enumerated programs.",
+        text="Deterministic simulation of conversion histories in fresh interpreters with synchronous fault injection: (1) exhaustive enumeration of every eligible CALL site of the patch stack and its callers (sys.monitoring, ~9-20k sites per program) x {ordinary exception, interrupt-class exception} for fixed fixture programs (flat function, module with @onnx_function children, nested functions); (2) seeded histories mixing fault-free and faulted conversions of fixture and registry programs, precision flags, return modes, late and nested decorations, GC and eager probes. After every operation the oracle compares the declared write set (586 attributes), periodically the full namespace (~100k statically resolved attributes of jax/flax/equinox/... modules and classes, plus ~1.6k entries of JAX's per-primitive dispatch tables for primitives the host owns), the 64-bit flag, a deep fingerprint of the user object, and eager behaviour against a conversion-free control interpreter. Sampling over histories, exhaustive over single-fault sites of the enumerated programs.",
         design_ref="§5.2",
         note="Fault model excludes faults inside cleanup code and asynchronous interrupts between arbitrary lines (no Python code can be safe against those). Trusted: sys.monitoring delivery, inspect.getattr_static, bit-determinism of eager XLA-CPU results across interpreters (falls back to 1e-5 on summary statistics).",
         technique="deterministic simulation: seeded histories + exhaustive synchronous fault-site enumeration, namespace/flag/user-object/behaviour oracle vs control interpreter",
     ),
     "C16": dict(
         category="fault_enumeration",
-        text="Crash-point enumeration: for each program (hand-written fixtures + the repo's own registered testcases) every optimizer pass index (top level and per function body) is forced to abort under the default and the strict policy, and every equation-dispatch ordinal of the whole jaxpr tree is faulted three ways; each faulted to_onnx runs real code in a fresh-interpreter worker and is judged against the fault-free control of the same program (raise vs return, onnx checker full_check, ORT load, ORT outputs). Thorough = the entire registry x all crash points (exhaustive over registered programs when the budget suffices). Sampling, not proof, over programs.",
+        text="Crash-point enumeration: for each program (hand-written fixtures + the repo's own registered testcases) every optimizer pass index (top level and per function body) is forced to abort under the default and the strict policy, and every equation-dispatch ordinal of the whole jaxpr tree is faulted seven ways (registry miss, plugin binds nothing, binds an unproduced value, raises, finds one of its inputs unbound, returns too many values, returns a non-value; quick tier: four of the seven per equation); each faulted to_onnx runs real code in a fresh-interpreter worker and is judged against the fault-free control of the same program (raise vs return, onnx checker full_check, ORT load, ORT outputs). Thorough = the entire registry x all crash points (exhaustive over registered programs when the budget suffices). Sampling, not proof, over programs.",
         design_ref="§5.5",
         note="Trusted: onnx.checker, onnxruntime (single-threaded, no graph optimisation), the seams (module globals _OPTIMIZER_PASSES / dispatch_plugin_lowering / get_registered_lowering_plugin looked up at call time). Mid-pass aborts are excluded by the property's own quantifier.",
         technique="deterministic simulation: crash-point / fault enumeration with fault-free control",
